@@ -768,6 +768,8 @@ def _extern_module(E, name):
     if name == 'datetime':
         from . import aio
         return aio.make_datetime_module(E)
+    if name == 'collections':
+        return ExternModule('collections', dict(deque=_builtin_class('deque')))
     if name == 'functools':
         return ExternModule('functools', dict(partial=Builtin('partial', lambda f, *a, **k: Partial(f, a, k))))
     if name == 'inspect':
@@ -1489,6 +1491,8 @@ def concrete_iter(E, v):
         f, _ = v.cls.lookup('__iter__')
         if f is not None:
             return concrete_iter(E, E.call(ENG.BoundMethod(f, v), [], {}))
+        if v.cls.name == 'deque':
+            return list(v.attrs['items'])
     if v is None:
         E.throw('TypeError', "'NoneType' object is not iterable")
     raise Unsupported('iteration over %r' % (v,))
@@ -1872,6 +1876,98 @@ def gen_attr(E, g, name):
     raise Unsupported('generator attribute %s' % name)
 
 
+# =========================================================================== collections.deque (concrete length, optional maxlen)
+
+def _deque_ctor(E, cls, args, kwargs):
+    it = args[0] if args else kwargs.get('iterable', ())
+    maxlen = args[1] if len(args) > 1 else kwargs.get('maxlen')
+    if maxlen is not None and not isinstance(maxlen, int):
+        # symbolic bound: split on small values so that the content stays a concrete list
+        for v in range(0, 6):
+            if E.decide(mk_bool(I(maxlen) == v), 'deque-maxlen=%d' % v):
+                maxlen = v
+                break
+        else:
+            raise Unsupported('deque(maxlen) symbolic and larger than 5')
+    if isinstance(maxlen, int) and maxlen < 0:
+        E.throw('ValueError', 'maxlen must be non-negative')
+    o = SObj(cls, {'items': [], 'maxlen': maxlen})
+    for x in (concrete_iter(E, it) if it is not None else []):
+        _deque_append(E, o, x)
+    return o
+
+
+def _deque_append(E, o, x, left=False):
+    items, ml = o.attrs['items'], o.attrs['maxlen']
+    if ml is not None:
+        if ml == 0:
+            return
+        if len(items) >= ml:
+            if left:
+                items.pop()
+            else:
+                items.pop(0)
+    if left:
+        items.insert(0, x)
+    else:
+        items.append(x)
+
+
+def _deque_attr(E, o, name):
+    items = o.attrs['items']
+
+    def pop_(left):
+        def f():
+            if not items:
+                E.throw('IndexError', 'pop from an empty deque')
+            return items.pop(0) if left else items.pop()
+        return f
+    if name == 'append':
+        return Builtin('deque.append', lambda x: _deque_append(E, o, x))
+    if name == 'appendleft':
+        return Builtin('deque.appendleft', lambda x: _deque_append(E, o, x, True))
+    if name == 'popleft':
+        return Builtin('deque.popleft', pop_(True))
+    if name == 'pop':
+        return Builtin('deque.pop', pop_(False))
+    if name == 'clear':
+        return Builtin('deque.clear', lambda: items.clear())
+    if name == 'maxlen':
+        return o.attrs['maxlen']
+    if name == 'extend':
+        return Builtin('deque.extend', lambda it: [_deque_append(E, o, x) for x in concrete_iter(E, it)] and None)
+    if name == 'copy':
+        return Builtin('deque.copy', lambda: SObj(o.cls, {'items': list(items), 'maxlen': o.attrs['maxlen']}))
+    if name == 'remove':
+        def remove(x):
+            for i, y in enumerate(items):
+                if y is x:
+                    del items[i]
+                    return
+            E.throw('ValueError', 'deque.remove(x): x not in deque')
+        return Builtin('deque.remove', remove)
+    if name == 'rotate':
+        def rotate(n=1):
+            if not isinstance(n, int):
+                raise Unsupported('deque.rotate symbolic')
+            if items:
+                k = n % len(items)
+                items[:] = items[-k:] + items[:-k] if k else items
+        return Builtin('deque.rotate', rotate)
+    if name == '_pyvc_iter':
+        return lambda E_: list(items)
+    return NOATTR
+
+
+def _deque_getitem(E, o, idx):
+    items = o.attrs['items']
+    if isinstance(idx, int):
+        if -len(items) <= idx < len(items):
+            return items[idx]
+        E.throw('IndexError', 'deque index out of range')
+    raise Unsupported('deque index %r' % (idx,))
+
+
 # =========================================================================== object models (BytesIO ...)
 
 def _bytesio_ctor(E, cls, args, kwargs):
@@ -1920,19 +2016,19 @@ def _bytesio_attr(E, obj, name):
     return NOATTR
 
 
-OBJ_ATTR_MODELS = {'BytesIO': _bytesio_attr}
+OBJ_ATTR_MODELS = {'BytesIO': _bytesio_attr, 'deque': _deque_attr}
 OBJ_SETATTR_MODELS = {}
 CLASS_ATTR_MODELS = {}
-CLASS_CTOR_MODELS = {'BytesIO': _bytesio_ctor}
+CLASS_CTOR_MODELS = {'BytesIO': _bytesio_ctor, 'deque': _deque_ctor}
 FORCE_CTOR = set()
 BASE_INIT_MODELS = {}
-TRUTH_MODELS = {}
+TRUTH_MODELS = {'deque': lambda E_, v: len(v.attrs['items']) > 0}
 # modelled external classes without __bool__/__len__ (object default: always true)
 ALWAYS_TRUTHY = {'object', 'Future', 'Task', 'Event', 'Queue', 'datetime', 'Lock', 'Condition', 'Semaphore'}
 OBJ_BINOP = {}
 OBJ_CMP = {}
 OBJ_EQ = {}
-OBJ_GETITEM = {}
+OBJ_GETITEM = {'deque': _deque_getitem}
 
 
 # =========================================================================== builtins
@@ -1953,6 +2049,8 @@ def make_builtins(E):
             f, _ = v.cls.lookup('__len__')
             if f is not None:
                 return E.call(ENG.BoundMethod(f, v), [], {})
+            if v.cls.name == 'deque':
+                return len(v.attrs['items'])
         if isinstance(v, SStr):
             return E.fresh_int('strlen', lo=0)
         E.throw('TypeError', "object of type '%s' has no len()" % _tname(v))
